@@ -236,6 +236,34 @@ def gen_c17_scans(ctx):
              detail=str(bad))
 
 
+    # the record carries Options.record() under 'options'; the report header names unused() and overrides()
+    hdr = repo.resolve('droop.record.ElectionRecord._ElectionRecord__fill_header') or None
+    rec_mod = repo.module('droop.record')
+    stores, names_unused, names_over = [], [], []
+    if rec_mod is not None:
+        for n in ast.walk(rec_mod.tree):
+            if isinstance(n, ast.Assign) and len(n.targets) == 1 and norm_src(n.targets[0]) == "self['options']":
+                stores.append(norm_src(n.value))
+        src = norm_src(rec_mod.tree)
+        for fn in ast.walk(rec_mod.tree):
+            if not isinstance(fn, ast.FunctionDef):
+                continue
+            body_src = norm_src(fn)
+            if 'E.options.unused()' in body_src:
+                # unused = E.options.unused(); if unused: s += "...Unused options: %s\n" % ", ".join(unused)
+                names_unused.append('unused = E.options.unused()' in body_src and
+                                    "'\\tUnused options: %s\\n' % ', '.join(unused)" in body_src)
+            if 'E.options.overrides()' in body_src:
+                names_over.append('overrides = E.options.overrides()' in body_src and
+                                  "'\\tOverridden options: %s\\n' % ', '.join(overrides)" in body_src)
+    scan(ctx, P, 'droop.record', 'record-options', "the record's 'options' entry is Options.record() (the four layers and the effective values)",
+         stores == ['E.options.record()'], detail=str(stores))
+    scan(ctx, P, 'droop.record', 'report-names-unused', 'the report header names exactly Options.unused()',
+         names_unused == [True], detail=str(names_unused))
+    scan(ctx, P, 'droop.record', 'report-names-overridden', 'the report header names exactly Options.overrides()',
+         names_over == [True], detail=str(names_over))
+
+
 # --------------------------------------------------------------------------------------------- C20
 VALUE_CLASSES = {'droop.values.fixed': 'Fixed', 'droop.values.guarded': 'Guarded', 'droop.values.rational': 'Rational'}
 
